@@ -275,6 +275,17 @@ Definition no_boot_failure (s : st) (ls : list label) : Prop :=
   (forall p status, In (Exit p status) ls -> boot_code status = false).
 
 Definition is_master (l : label) : bool := match l with Master => true | _ => false end.
+(* what happens before the master dispatches the signal: the schedule up to its first Master label *)
+Fixpoint pre_dispatch (ls : list label) : list label :=
+  match ls with
+  | [] => []
+  | Master :: _ => []
+  | l :: t => l :: pre_dispatch t
+  end.
+(* where a boot failure changes the outcome of a shutdown: on a tree whose reap_workers tests `not self._stopping` only
+   before the signal is dispatched (then the boot failure came first and decides the status: C03); on a tree without the
+   test, anywhere *)
+Definition boot_scope (ls : list label) : list label := if reap_guards_halting then pre_dispatch ls else ls.
 Definition count_master (ls : list label) : nat := length (filter is_master ls).
 
 (* ---- the canonical fair environment: told workers exit during the naps, SIGCHLD is delivered -------------- *)
